@@ -43,17 +43,35 @@ class C16Bounded(Bounded):
         open(sibling, "w").write(f"open({marker + '_sibling'!r}, 'w').write('x')\nvars = {{}}\n")
 
         def hook(ev, args):
-            if ev in ("subprocess.Popen", "os.system", "socket.connect", "urllib.Request") or (ev == "open" and args and str(args[0]) == secret):
+            if ev in ("subprocess.Popen", "os.system", "os.exec", "os.posix_spawn", "socket.connect", "socket.getaddrinfo", "socket.gethostbyname", "socket.gethostbyaddr", "socket.sendto", "socket.bind", "urllib.Request",
+                      "http.client.connect") or (ev == "open" and args and str(args[0]) == secret):
                 events.append((ev, str(args)[:80]))
         sys.addaudithook(hook)
         ext_items = [{"type": "command_placeholders", "cmd": f"touch {marker}_cmd", "include": ["ph"]},
                      {"type": "file_placeholders", "path": secret, "include": ["ph"]},
-                     {"type": "http_placeholders", "url": "http://127.0.0.1:9/x", "include": ["ph"]}]
+                     {"type": "http_placeholders", "url": "http://127.0.0.1:9/x", "include": ["ph"]},
+                     {"type": "http_placeholders", "url": "http://host-chosen-by-the-pipeline.invalid/x", "include": ["ph"]}]      # a host NAME: resolving it is network access too
+        # every parameter the external-source item classes declare (also ones added later), pointed at the secret file / set to zero
+        import dataclasses
+        from sigma.processing.transformations import transformations as _tr
+        sweep = []
+        for it in ext_items[:3]:
+            for f in dataclasses.fields(_tr[it["type"]]):
+                if not f.init or f.name in it or f.name in ("include", "exclude", "allow_external_sources"):
+                    continue
+                t = str(f.type)
+                if "bool" in t:
+                    continue
+                if "str" in t and "dict" not in t:
+                    sweep.append(dict(it, **{f.name: secret}))
+                if "int" in t or "float" in t:
+                    sweep.append(dict(it, **{f.name: 0}))
         docs = []
         for it in ext_items:
             docs.append({"transformations": [dict(it)]})
             docs.append({"transformations": [{"type": "nest", "items": [dict(it)]}]})
             docs.append({"transformations": [{"type": "nest", "items": [{"type": "nest", "items": [dict(it)]}]}]})
+        n_plain_docs = len(docs)
         tmpl = {"type": "template", "template": "{{ query }}", "vars": varsfile}
         docs.append({"transformations": [{"type": "value_placeholders", "include": ["ph"]}], "vars": {"ph": "v"}, "postprocessing": [dict(tmpl)]})
         docs.append({"transformations": [{"type": "value_placeholders", "include": ["ph"]}], "vars": {"ph": "v"}, "postprocessing": [{"type": "nest", "items": [dict(tmpl)]}]})
@@ -119,6 +137,30 @@ class C16Bounded(Bounded):
                         fails.append({"text": f"document {di} ({how}, opt-in keys injected at depth mask {mask}, environment variables {'unset' if envv is None else '= ' + repr(envv)}{', after an opted-in load of kind ' + prior if prior else ''}) loaded with default arguments caused {bad}; outcome {outcome}", "input": [di, mask, how, envv, prior]})
                     if len(samples) < 4 and mask == 6 and how == "dict":
                         samples.append({"document": json.dumps(dd)[:300], "outcome": outcome})
+        for k in saved_env:
+            os.environ.pop(k, None)
+        for it in sweep:
+            for nested in (False, True):
+                ev += 1
+                nontriv += 1
+                del events[:]
+                for m in ("_cmd", "_vars", "_sibling"):
+                    if os.path.exists(marker + m):
+                        os.unlink(marker + m)
+                dd = {"transformations": [{"type": "nest", "items": [dict(it)]}] if nested else [dict(it)]}
+                try:
+                    out = TextQueryTestBackend(ProcessingPipeline.from_dict(copy.deepcopy(dd))).convert(SigmaCollection.from_yaml(RULE))
+                    outcome = f"converted: {out}"
+                except SigmaError as e:
+                    outcome = type(e).__name__
+                except Exception as e:
+                    outcome = "non-sigma " + type(e).__name__
+                bad = list(events) + [m for m in ("_cmd", "_vars", "_sibling") if os.path.exists(marker + m)]
+                if "TOPSECRET" in outcome:
+                    bad.append("secret file content in query")
+                if bad:
+                    extra = {k: v for k, v in it.items() if k not in ("type", "include", "cmd", "path", "url")}
+                    fails.append({"text": f"{it['type']} item{' inside nest' if nested else ''} with the parameter {extra} loaded and used with default arguments caused {bad}; outcome {outcome}", "input": [it["type"], nested, sorted(extra)]})
         for k, v in saved_env.items():
             if v is None:
                 os.environ.pop(k, None)
